@@ -575,6 +575,14 @@ func (c *specCtx) binary(x *ast.BinaryExpr) specVal {
 	fixNil(&a, b, sb)
 	fixNil(&b, a, sa)
 	sa, sb = vc.sortOfVal(a), vc.sortOfVal(b)
+	// comparing an interface with a concrete pointer: box the pointer (Go's implicit conversion)
+	if sa == "Iface" && sb == "Int" && b.typ != nil && isPtrType(b.typ) {
+		b = specVal{term: fmt.Sprintf("(ite (= %s 0) (mk_iface %d 0) (mk_iface %d %s))", b.term, vc.typeID(b.typ), vc.typeID(b.typ), b.term), sort: "Iface", typ: a.typ}
+		sb = "Iface"
+	} else if sb == "Iface" && sa == "Int" && a.typ != nil && isPtrType(a.typ) {
+		a = specVal{term: fmt.Sprintf("(ite (= %s 0) (mk_iface %d 0) (mk_iface %d %s))", a.term, vc.typeID(a.typ), vc.typeID(a.typ), a.term), sort: "Iface", typ: b.typ}
+		sa = "Iface"
+	}
 	mixReal := sa == "Real" || sb == "Real"
 	if mixReal {
 		if sa == "Int" {
@@ -829,6 +837,22 @@ func (c *specCtx) call(x *ast.CallExpr) specVal {
 		}
 		dom, _ := vc.mapSV(mt)
 		return specVal{term: fmt.Sprintf("(and (not (= %s 0)) (select (select %s %s) %s))", m.term, vc.get(c.st, dom), m.term, k.term), typ: tBool}
+	case "iterpos":
+		if vc.lastIter == nil {
+			fail("iterpos(): no map iteration in scope")
+		}
+		return specVal{term: vc.get(c.st, vc.lastIter.pos), typ: tInt}
+	case "iterlen":
+		if vc.lastIter == nil {
+			fail("iterlen(): no map iteration in scope")
+		}
+		return specVal{term: vc.lastIter.n, typ: tInt}
+	case "iterkey":
+		if vc.lastIter == nil {
+			fail("iterkey(): no map iteration in scope")
+		}
+		j := c.eval(args[0])
+		return specVal{term: fmt.Sprintf("(%s %s)", vc.lastIter.keyFn, j.term), typ: vc.lastIter.keyType}
 	case "anylock":
 		vc.svDeclare("G_nheld", "Int")
 		return specVal{term: fmt.Sprintf("(>= %s 1)", vc.get(c.st, "G_nheld")), typ: tBool}
@@ -1109,7 +1133,18 @@ func (vc *VC) havocTarget(cf *Frame, st, pre *State, target string) {
 	baseS, field := target[:i], target[i+1:]
 	// whole-field form: TypeName.field
 	if t := vc.eng.lookupNamedType(cf.fn, baseS); t != nil {
-		for _, sv := range vc.svsOfField(t, field) {
+		svs := vc.svsOfField(t, field)
+		if stt, ok := t.Underlying().(*types.Struct); ok {
+			for i := 0; i < stt.NumFields(); i++ {
+				if stt.Field(i).Name() == field {
+					if mt, ok := stt.Field(i).Type().Underlying().(*types.Map); ok {
+						d, v := vc.mapSV(mt)
+						svs = append(svs, d, v)
+					}
+				}
+			}
+		}
+		for _, sv := range svs {
 			vc.havocSV(st, sv)
 			if vc.frameFr != nil {
 				vc.assignCheckWhole(vc.frameFr, st, sv, vc.framePos)
